@@ -4,7 +4,8 @@ for id in C01 C02 C03 C04 C05 C06 C07 C08 C09 C10 C11 C12 C13 C14 C15 C16 C17 C1
 echo "=== mutants"
 tools/run_mutants.sh
 echo "=== seeds r8 r9"
-for r in r8 r9; do for id in C01 C02 C03 C04 C05 C06 C07 C08 C09 C10 C11 C12 C13 C14 C15 C16 C17 C18 C19 C20; do
-  by=$(jq -r '.caught_by[0]' seeded/$id-$r/meta.json)
+for r in r8 r9 r10; do for id in C01 C02 C03 C04 C05 C06 C07 C08 C09 C10 C11 C12 C13 C14 C15 C16 C17 C18 C19 C20; do
+  by=$(jq -r ".caught_by[0] // empty" seeded/$id-$r/meta.json)
+  if [ -z "$by" ]; then echo "$id-$r -> (recorded as outside every listed statement) | skipped"; continue; fi
   echo "$id-$r -> $by | $(tools/mutant.sh seeded/$id-$r/patch.diff $by 2>&1 | tail -1 | cut -c1-140)"
 done; done
